@@ -1,6 +1,48 @@
 """C05 — dice are unbiased for every number of sides."""
+import random
+
 import common
+import k2cases
 from common import Broken, Z
+
+BIG = "1000000007"   # a die so large that two equal rolls are a 1e-9 event
+INDEP = [
+    f"[d{BIG}, d{BIG}, d{BIG}]",
+    f"func r(){{ d{BIG} }}; [r(), r(), d{BIG}]",
+    f"func r(){{ d{BIG} }}; x = r(); y = d{BIG}; z = r(); [x, y, z]",
+    f"&cv = d{BIG}; [cv, cv, d{BIG}]",
+    f"func r(u){{ u + d{BIG} }}; [r(0), d{BIG}, r(0)]",
+    f"i = 0; arr = []; while i < 3 {{ arr.push(d{BIG}); i = i + 1 }}; arr",
+    f"func r(){{ d{BIG} }}; i = 0; arr = []; while i < 3 {{ arr.push(r()); i = i + 1 }}; arr",
+    f"[`{{d{BIG}}}`, `{{d{BIG}}}`, str(d{BIG})]",
+    f"func r(){{ [d{BIG}, d{BIG}] }}; r() + r() + [d{BIG}]",
+    f"func r(){{ func q(){{ d{BIG} }}; q() }}; [r(), r(), d{BIG}]",
+    f"[1d{BIG}k1, 2d{BIG}k1, 1d{BIG}]",
+]
+
+
+def independence_search(res, seed):
+    """successive dice are separate draws from the context generator, also across function calls, computed values,
+    loops and templates: with a huge die, equal results are a 1e-9 event"""
+    rnd = random.Random(seed)
+    inputs = []
+    for src in INDEP:
+        for _ in range(4):
+            inputs.append(k2cases.mk_input(src, oplimit=100000, hi=rnd.getrandbits(64), lo=rnd.getrandbits(64)))
+    rows = k2cases.go_run(inputs)
+    found = 0
+    for inp, row in zip(inputs, rows):
+        last = (row or {}).get("steps", [{}])[-1] if row else {}
+        if not last.get("ok") or not last.get("val"):
+            continue
+        vals = [x.get("i") or x.get("s") for x in (last["val"].get("l") or [])]
+        if len(vals) >= 2 and len(set(vals)) < len(vals):
+            res.violation({"what": "two dice of one evaluation returned the same 1e9-sided result: they did not consume separate draws of the context generator",
+                           "source": inp["src"].decode(), "seed_state": [str(inp.get("hi")), str(inp.get("lo"))], "values": vals})
+            found += 1
+            if found >= 2:
+                break
+    return inputs, rows, found
 
 LEVEL = "proof"
 U64 = 1 << 64
@@ -113,6 +155,19 @@ def run(res, tier, seed):
         broken = b
 
     found = property_search(res, rows, seed)
+    # dice through the VM: separate draws (search) + exact value / generator state against the VM model (K2)
+    try:
+        k_inputs, k_rows, f2 = independence_search(res, seed)
+        found += f2
+        st = k2cases.correspond(k_inputs, k_rows, "c05k2")
+        badk = [i for i, (s_, _) in enumerate(st) if s_ == "bad"]
+        res.cov["vm_dice_stream"] = {"programs": len(k_inputs), "model_agrees": sum(1 for s_, _ in st if s_ == "ok"), "disagreements": len(badk),
+                                     "unsupported": sum(1 for s_, _ in st if s_ == "unsup")}
+        if badk and not broken:
+            broken = Broken("correspondence CorrK2 (Model/VM.v vs the real VM: value and generator state of dice programs with functions / computed values)",
+                            {"first": [{"source": INDEP[i // 4], "why": st[i][1]} for i in badk[:3]]})
+    except Broken as b:
+        broken = broken or b
     if broken and not found:
         res.violation({"broken": broken.what, "detail": broken.detail}, no_input=True)
 
